@@ -82,7 +82,9 @@ def o_stack(inp):
     except Exception as e:
         return (("input-not-deepcopyable", f"deepcopy(library) raised {type(e).__name__}: {e}", "a library produced by the shipped middlewares can be deep-copied"), True, sorted(cls))
     if canon(snapshot) != c0:
-        raise harness.HarnessError("canon(deepcopy(lib)) != canon(lib): blind spot in canon")
+        # the statement measures everything against "its prior deep copy": a deep copy that is not a faithful copy
+        # (always is on the unchanged tree) breaks it before any middleware runs
+        return (("deepcopy-of-input-differs-from-input", harness._short(canon(snapshot), 400), harness._short(c0, 400)), True, sorted(cls))
     cur = lib
     nontrivial = False
     for si, spec in enumerate(inp["stack"]):
